@@ -11,7 +11,7 @@ def run(rep, tier, replay):
     return run_family(rep, tier, replay, "C03", mix="steps",
                       probes=["text"],
                       quick=dict(maxcmd=16, maxbps=2, ncands=3, nhist=10, signals=True),
-                      thorough=dict(maxcmd=20, maxbps=3, ncands=5, nhist=60, signals=True))
+                      thorough=dict(maxcmd=20, maxbps=3, ncands=5, nhist=40, signals=True))
 
 
 def pick_cands(p, n, rng):
